@@ -446,6 +446,13 @@ func Gen(w *bufio.Writer, seed uint64, tier string) {
 	if tier == "thorough" {
 		n = 25000
 	}
+	// (0) whole archives around the 65535-member boundary: n members + k added by relic, read back by relic and archive/zip
+	for _, nk := range [][3]int{{65531, 4, 0}, {65530, 4, 0}, {65532, 4, 1}, {65534, 0, 0}, {65535, 0, 0}, {65533, 2, 1}} {
+		if tier != "thorough" && nk[0]+nk[1] != 65535 && nk[2] == 1 {
+			continue
+		}
+		fmt.Fprintf(w, "C17 many %d %d %d\n", nk[0], nk[1], nk[2])
+	}
 	// (a) fixed corner cases: each descriptor variant on an empty and a non-empty member, followed by another member
 	for _, defl := range []bool{false, true} {
 		for _, data := range [][]byte{nil, []byte("x"), []byte("hello hello hello hello")} {
@@ -871,6 +878,81 @@ func doRewrite(f []string) string {
 
 func sha256sum(b []byte) []byte { s := sha256.Sum256(b); return s[:] }
 
+// doMany: `many <n> <k> <desc 0|1>` - an archive of n small stored members (written by archive/zip), k members added
+// through relic's Directory.AddFile / NewFile / WriteDirectory (the JAR signing path), then the result read back by
+// relic (random access) and by archive/zip.  Member counts around 65535 are where the ZIP64 end records start.
+func doMany(f []string) string {
+	n, k := int(hx.Atoi(f[1])), int(hx.Atoi(f[2]))
+	useDesc := f[3] == "1"
+	var zb bytes.Buffer
+	zw := zip.NewWriter(&zb)
+	for i := 0; i < n; i++ {
+		w, err := zw.CreateHeader(&zip.FileHeader{Name: fmt.Sprintf("m%05d", i), Method: zip.Store})
+		if err != nil {
+			panic(err)
+		}
+		_, _ = w.Write([]byte{byte(i)})
+	}
+	if err := zw.Close(); err != nil {
+		panic(err)
+	}
+	z := zb.Bytes()
+	d, err := zipslicer.Read(bytes.NewReader(z), int64(len(z)))
+	if err != nil {
+		return "err read-" + classify(err)
+	}
+	if len(d.File) != n {
+		return fmt.Sprintf("err read-count-%d", len(d.File))
+	}
+	nd := new(zipslicer.Directory)
+	for _, zf := range d.File {
+		ff := *zf
+		if _, err := nd.AddFile(&ff); err != nil {
+			return "err mangle-" + classify(err)
+		}
+	}
+	var body bytes.Buffer
+	for i := 0; i < k; i++ {
+		if _, err := nd.NewFile(fmt.Sprintf("META-INF/ADDED%d", i), nil, []byte("added"), &body, fixedTime, true, useDesc); err != nil {
+			return "err newfile-" + classify(err)
+		}
+	}
+	if err := nd.WriteDirectory(&body, &body, false); err != nil {
+		return "err wd-" + classify(err)
+	}
+	out := append(append([]byte{}, z[:d.DirLoc]...), body.Bytes()...)
+	relic := "ok"
+	if d2, err := zipslicer.Read(bytes.NewReader(out), int64(len(out))); err != nil {
+		relic = "err:" + classify(err)
+	} else if len(d2.File) != n+k {
+		relic = fmt.Sprintf("count:%d", len(d2.File))
+	}
+	gz := "ok"
+	if zr, err := zip.NewReader(bytes.NewReader(out), int64(len(out))); err != nil {
+		gz = "err"
+	} else if len(zr.File) != n+k {
+		gz = fmt.Sprintf("count:%d", len(zr.File))
+	} else {
+		for _, i := range []int{0, n / 2, n - 1, n, n + k - 1} {
+			if i < 0 || i >= len(zr.File) {
+				continue
+			}
+			rc, err := zr.File[i].Open()
+			if err != nil {
+				gz = fmt.Sprintf("open:%d", i)
+				break
+			}
+			b, err := io.ReadAll(rc)
+			rc.Close()
+			if err != nil || (i < n && !bytes.Equal(b, []byte{byte(i)})) || (i >= n && string(b) != "added") {
+				gz = fmt.Sprintf("content:%d", i)
+				break
+			}
+		}
+	}
+	return fmt.Sprintf("ok members=%d relic=%s go=%s", n+k, relic, gz)
+}
+
 // realMangle: Directory.Mangle + Mangler.MakePatch, the patch applied by hand (ranges ascending only)
 func realMangle(z []byte, mask string, force bool) ([]byte, bool) {
 	d, err := zipslicer.Read(bytes.NewReader(z), int64(len(z)))
@@ -954,6 +1036,8 @@ func Impl() {
 			return guard(func() string { return doRewrite(f) })
 		case "wd":
 			return guard(func() string { return doWd(f) })
+		case "many":
+			return guard(func() string { return doMany(f) })
 		}
 		return "bad-op"
 	})
